@@ -16,6 +16,8 @@ pub enum Call {
     Add(u32, u32, u32, u32), // state, lo, hi, target
     Def(u32, u32),
     Fin(u32),
+    /// an intermediate build() whose result is dropped: the builder is used further
+    Build,
 }
 
 fn call_json(c: &Call) -> Value {
@@ -24,6 +26,7 @@ fn call_json(c: &Call) -> Value {
         Call::Add(s, lo, hi, t) => json!({"op":"add","s":s,"t":t,"lo":lo,"hi":hi}),
         Call::Def(s, t) => json!({"op":"def","s":s,"t":t,"lo":0,"hi":0}),
         Call::Fin(s) => json!({"op":"fin","s":s,"t":0,"lo":0,"hi":0}),
+        Call::Build => json!({"op":"build","s":0,"t":0,"lo":0,"hi":0}),
     }
 }
 
@@ -43,6 +46,9 @@ fn run_calls(calls: &[Call]) -> AutomatonBuilder<u32> {
             }
             Call::Fin(s) => {
                 b.mark_final(s);
+            }
+            Call::Build => {
+                let _ = b.build();
             }
         }
     }
@@ -240,6 +246,33 @@ pub fn drive_builder(a: &Args) {
             calls.swap(k, j);
         }
         out.emit(builder_record(&calls, ""));
+    }
+    // the builder used further after a successful build(): k transitions into the declared default (build's clean-up
+    // drops them), then k / k-1 / k+1 new transitions, one of which may conflict with a transition that is still
+    // there; the final verdict is the one of all transitions given
+    for k in 1..=3u32 {
+        for extra in [k, k + 1, k.saturating_sub(1)] {
+            for variant in 0..4u32 {
+                let d = 1u32; // declared default of state 0
+                let mut calls = vec![Call::New(0), Call::Add(0, 0x61, 0x61, 0), Call::Add(0, 0x70, 0x7F, 2), Call::Def(0, d)];
+                for j in 0..k {
+                    calls.push(Call::Add(0, 0x30 + j, 0x30 + j, d));
+                }
+                calls.push(Call::Def(1, 1));
+                calls.push(Call::Def(2, 0));
+                calls.push(Call::Fin(2));
+                calls.push(Call::Build);
+                for j in 0..extra {
+                    calls.push(match (variant, j) {
+                        (0, 0) => Call::Add(0, 0x61, 0x61, d),       // conflicts with a surviving transition, targets the default
+                        (1, 0) => Call::Add(0, 0x70, 0x75, 1),       // conflicts, other target
+                        (2, 0) => Call::Add(0, 0x61, 0x61, 0),       // the same transition again: no conflict
+                        _ => Call::Add(0, 0x100 + 2 * j, 0x100 + 2 * j, 2), // new region: no conflict
+                    });
+                }
+                out.emit(builder_record(&calls, ""));
+            }
+        }
     }
     // conflicting labels in every shape of overlap, added at the beginning / in the middle / at the end of a
     // complete specification: identical interval, nested, spanning two, touching one character at 0 / at MAX_CHAR
